@@ -132,6 +132,54 @@ type MessageBadNamedEnum struct {
 
 func (*MessageBadNamedEnum) GetID() uint32 { return 33 }
 
+// enum fields at a wire width the codec does not have (every mavenum tag outside uint8/int8/uint16/uint32/int32/uint64),
+// on a named enum type and on a plain uint64
+type MessageBadEnum16 struct {
+	E UEnum `mavenum:"int16"`
+	V uint8
+}
+
+func (*MessageBadEnum16) GetID() uint32 { return 34 }
+
+type MessageBadEnum16Plain struct {
+	E uint64 `mavenum:"int16"`
+	V uint8
+}
+
+func (*MessageBadEnum16Plain) GetID() uint32 { return 35 }
+
+type MessageBadEnum64s struct {
+	V uint8
+	E UEnum `mavenum:"int64"`
+}
+
+func (*MessageBadEnum64s) GetID() uint32 { return 36 }
+
+type MessageBadEnumDouble struct {
+	E [2]UEnum `mavenum:"float64"`
+}
+
+func (*MessageBadEnumDouble) GetID() uint32 { return 37 }
+
+type MessageBadEnumChar struct {
+	E UEnum `mavenum:"char"`
+}
+
+func (*MessageBadEnumChar) GetID() uint32 { return 38 }
+
+type MessageBadEnumCType struct {
+	E uint64 `mavenum:"uint8_t"`
+}
+
+func (*MessageBadEnumCType) GetID() uint32 { return 39 }
+
+type MessageBadEnum16Ext struct {
+	V uint8
+	E [3]uint64 `mavenum:"int16" mavext:"true"`
+}
+
+func (*MessageBadEnum16Ext) GetID() uint32 { return 40 }
+
 // the largest struct that IS a definition (255 bytes, array of 255): accepted and usable
 type MessageUserMax struct {
 	A [255]uint8
@@ -140,7 +188,8 @@ type MessageUserMax struct {
 func (*MessageUserMax) GetID() uint32 { return 31 }
 
 var malformed = []message.Message{&MessageBadUnexp{}, &MessageBadStrArr{}, &MessageBadZeroArr{}, &MessageBadBigArr{}, &MessageBadTooBig{},
-	&MessageBadLenNeg{}, &MessageBadLenZero{}, &MessageBadLenBig{}, &MessageBadExtFirst{}, &MessageBadWide{}, &MessageBadExact{}, &MessageBadNamed{}, &MessageBadNamedEnum{}}
+	&MessageBadLenNeg{}, &MessageBadLenZero{}, &MessageBadLenBig{}, &MessageBadExtFirst{}, &MessageBadWide{}, &MessageBadExact{}, &MessageBadNamed{}, &MessageBadNamedEnum{},
+	&MessageBadEnum16{}, &MessageBadEnum16Plain{}, &MessageBadEnum64s{}, &MessageBadEnumDouble{}, &MessageBadEnumChar{}, &MessageBadEnumCType{}, &MessageBadEnum16Ext{}}
 
 // implDuse: first use of one message struct (init, write the zero value in both versions, read an empty and a full payload)
 func implDuse(t []string) (out string) {
